@@ -53,7 +53,9 @@ impl<R: Round, const B: Word> FBig<R, B> {
     pub(crate) fn split_at_point_internal(&self) -> (IBig, IBig, usize) {
         debug_assert!(self.repr.exponent < 0);
         if self.repr.smaller_than_one() {
-            return (IBig::ZERO, self.repr.significand.clone(), self.context.precision);
+            // |self| < 1/B: the point may be far away, but for rounding any scale that keeps the
+            // fraction below 1/B will do (the precision of the float is not such a scale)
+            return (IBig::ZERO, self.repr.significand.clone(), self.repr.digits_ub() + 1);
         }
 
         let shift = (-self.repr.exponent) as usize;
@@ -123,6 +125,8 @@ impl<R: Round, const B: Word> FBig<R, B> {
         assert_finite(&self.repr);
         if self.repr.exponent >= 0 {
             return Self::ZERO;
+        } else if self.repr.smaller_than_one() {
+            return self.clone();
         }
 
         let (_, lo, precision) = self.split_at_point_internal();
@@ -245,9 +249,8 @@ impl<R: Round, const B: Word> FBig<R, B> {
         assert_finite(&self.repr);
         if self.repr.exponent >= 0 {
             return self.clone();
-        } else if self.repr.exponent + (self.repr.digits_ub() as isize) < -2 {
-            // to determine if the number rounds to zero, we need to make sure |self| < 0.5
-            // which is stricter than `self.repr.smaller_than_one()`
+        } else if self.repr.smaller_than_one() {
+            // |self| < 1/B <= 0.5
             return Self::ZERO;
         }
 
